@@ -71,11 +71,14 @@ theorem parseChain_tier {cfg : PCfg} {ops : List String} {rest : List Stage} {f 
     obtain ⟨items, ha, hitems⟩ := tierLoop_foldl _ _ _ h
     exact ⟨first, items, ⟨f, st1, h1⟩, ha, hitems⟩
 
-/-- the unary stage: the operand of the tighter stages, wrapped as `x * -1` or not -/
+/-- the unary stage: the operand of the tighter stages, bare (no `-` sign: the current token is not a
+minus), wrapped as `x * -1` (odd number of signs) or as `(x * -1) * -1` (even non-zero number of
+signs: the current token is a minus) -/
 theorem parseChain_unary {cfg : PCfg} {rest : List Stage} {f : Nat} {st st' : PState} {a : Ast}
     (h : parseChain f cfg (.unary :: rest) st = .ok (a, st')) :
     ∃ (x : Ast), (∃ f' st1 st2, parseChain f' cfg rest st1 = .ok (x, st2)) ∧
-      (a = x ∨ a = .oper "*" x (.num "-1")) := by
+      ((st.s.typ ≠ .minus ∧ a = x) ∨ a = .oper "*" x (.num "-1") ∨
+       (st.s.typ = .minus ∧ a = .oper "*" (.oper "*" x (.num "-1")) (.num "-1"))) := by
   cases f with
   | zero => simp [parseChain] at h
   | succ f =>
@@ -85,8 +88,10 @@ theorem parseChain_unary {cfg : PCfg} {rest : List Stage} {f : Nat} {st st' : PS
     simp only [pure, Except.pure, Except.ok.injEq, Prod.mk.injEq] at h
     refine ⟨x, ⟨f, st1, st2, h2⟩, ?_⟩
     cases minus
-    · left; simpa using h.1.symm
-    · right; simpa using h.1.symm
+    · by_cases hs : st.s.typ = .minus
+      · right; right; exact ⟨hs, by simpa [hs] using h.1.symm⟩
+      · left; exact ⟨hs, by simpa [hs] using h.1.symm⟩
+    · right; left; simpa using h.1.symm
 
 theorem parseChain_nil {cfg : PCfg} {f : Nat} {st st' : PState} {a : Ast}
     (h : parseChain f cfg [] st = .ok (a, st')) : ∃ f' st1 st2, parsePathExpr f' cfg st1 = .ok (a, st2) := by
@@ -106,8 +111,8 @@ def stageOps : List Stage → List String
 
 /-- `Strat cfg stages a`: `a` is grouped as the stage list prescribes.  A node made by a tier has its
 left operand from the same stage list (left associativity) and its right operand from the strictly
-tighter stages; the unary stage wraps as `x * -1`; below the last stage is whatever `parsePathExpr`
-returns. -/
+tighter stages; the unary stage wraps as `x * -1` (odd number of `-` signs) or `(x * -1) * -1` (even
+non-zero number); below the last stage is whatever `parsePathExpr` returns. -/
 inductive Strat (cfg : PCfg) : List Stage → Ast → Prop
   | path {a : Ast} : (∃ f st st', parsePathExpr f cfg st = .ok (a, st')) → Strat cfg [] a
   | tierUp {ops : List String} {rest : List Stage} {a : Ast} :
@@ -118,6 +123,8 @@ inductive Strat (cfg : PCfg) : List Stage → Ast → Prop
   | unaryUp {rest : List Stage} {x : Ast} : Strat cfg rest x → Strat cfg (.unary :: rest) x
   | unaryNeg {rest : List Stage} {x : Ast} :
       Strat cfg rest x → Strat cfg (.unary :: rest) (.oper "*" x (.num "-1"))
+  | unaryNeg2 {rest : List Stage} {x : Ast} :
+      Strat cfg rest x → Strat cfg (.unary :: rest) (.oper "*" (.oper "*" x (.num "-1")) (.num "-1"))
 
 theorem strat_foldl {cfg : PCfg} {ops : List String} {rest : List Stage} :
     ∀ (items : List (String × Ast)) (acc : Ast), Strat cfg (.tier ops :: rest) acc →
@@ -150,9 +157,10 @@ theorem parseChain_strat {cfg : PCfg} : ∀ (stages : List Stage) {f : Nat} {st 
       obtain ⟨hop, f2, st2, st3, hr⟩ := hitems p hp
       exact ⟨hop, ih hr⟩
     | unary =>
-      obtain ⟨x, ⟨f1, st1, st2, hx⟩, ha | ha⟩ := parseChain_unary h
+      obtain ⟨x, ⟨f1, st1, st2, hx⟩, ⟨_, ha⟩ | ha | ⟨_, ha⟩⟩ := parseChain_unary h
       · subst ha; exact .unaryUp (ih hx)
       · subst ha; exact .unaryNeg (ih hx)
+      · subst ha; exact .unaryNeg2 (ih hx)
 
 /-! ### reading the stratification: which operator can sit at the top of a tree of a stage list -/
 
@@ -201,6 +209,11 @@ theorem strat_head {cfg : PCfg} {S : List Stage} {a : Ast} (h : Strat cfg S a) :
     injection e with e1 _ _
     subst e1
     exact .inr (.inr ⟨rfl, by simp⟩)
+  | unaryNeg2 _ _ =>
+    intro op' l' r' e
+    injection e with e1 _ _
+    subst e1
+    exact .inr (.inr ⟨rfl, by simp⟩)
 
 /-- a stratified operator node whose operator does not belong to the stage list came from
 `parsePathExpr`: a looser operator never appears inside a tighter stage unparenthesised -/
@@ -243,6 +256,7 @@ theorem strat_node {cfg : PCfg} {ops : List String} {rest : List Stage} {op : St
       cases h with
       | unaryUp h' => exact ih h' hpre' hrest
       | unaryNeg _ => exact absurd (.inr ⟨rfl, by simp⟩) hpre
+      | unaryNeg2 _ => exact absurd (.inr ⟨rfl, by simp⟩) hpre
 
 /-! ### the concrete stage list of `Model/Chain.lean` -/
 
@@ -321,12 +335,13 @@ theorem binary_node {cfg : PCfg} {op : String} {l r : Ast}
     exact ⟨hop, hk, by rw [hd1]; exact hl, by rw [hd2]; exact hr⟩
 
 /-- a `*` node not from a parenthesised/primary sub-expression is either a multiplication (operands
-as for the other binary operators) or the encoding `x * -1` of unary minus, whose operand is a
-union expression -/
+as for the other binary operators) or the encoding of unary minus: `x * -1` (odd number of signs) or
+`(x * -1) * -1` (even non-zero number), whose operand `x` is a union expression -/
 theorem star_node {cfg : PCfg} {l r : Ast}
     (h : Strat cfg stages (.oper "*" l r)) (hnp : ¬ FromPath cfg (.oper "*" l r)) :
     (Strat cfg (stages.drop 5) l ∧ Strat cfg (stages.drop 6) r) ∨
-    (r = .num "-1" ∧ Strat cfg (stages.drop 7) l) := by
+    (r = .num "-1" ∧ (Strat cfg (stages.drop 7) l ∨
+      ∃ x, l = .oper "*" x (.num "-1") ∧ Strat cfg (stages.drop 7) x)) := by
   rw [stages_eq] at h
   have h := strat_skip_tier h (by decide)
   have h := strat_skip_tier h (by decide)
@@ -341,7 +356,8 @@ theorem star_node {cfg : PCfg} {l r : Ast}
   | tierOp _ hl hr => exact .inl ⟨hl, hr⟩
   | tierUp h =>
     cases h with
-    | unaryNeg hx => exact .inr ⟨rfl, hx⟩
+    | unaryNeg hx => exact .inr ⟨rfl, .inl hx⟩
+    | unaryNeg2 hx => exact .inr ⟨rfl, .inr ⟨_, rfl, hx⟩⟩
     | unaryUp h =>
       have h := strat_skip_tier h (by decide)
       cases h with
@@ -357,6 +373,7 @@ theorem rank_of_strat {cfg : PCfg} {k : Nat} {op' : String} {x y : Ast} (hk : k 
     rw [e6] at h
     cases h with
     | unaryNeg _ => exact .inr ⟨rfl, rfl, rfl⟩
+    | unaryNeg2 _ => exact .inr ⟨rfl, rfl, rfl⟩
     | unaryUp h =>
       left
       rcases strat_head h rfl with hp | hh
@@ -387,9 +404,15 @@ theorem operands_not_looser {cfg : PCfg} {op : String} {l r : Ast}
     by_cases hst : op = "*"
     · subst hst
       have hr : tierRank "*" = 5 := by decide
-      rcases star_node h hnp with ⟨hl, hr'⟩ | ⟨hr', hl⟩
+      rcases star_node h hnp with ⟨hl, hr'⟩ | ⟨hr', hl | ⟨x, hlx, hx⟩⟩
       · exact ⟨5, 6, by omega, by omega, by decide, .inr ⟨by decide, hr'⟩, hl⟩
       · exact ⟨7, 6, by omega, by omega, by decide, .inl hr', hl⟩
+      · -- `(x * -1) * -1`: the left operand is itself the unary encoding, a tree of the stages from 5 on
+        have e5 : stages.drop 5 = [.tier ["*", "div", "mod"], .unary, .tier ["|"]] := by decide
+        have e7 : stages.drop 7 = [.tier ["|"]] := by decide
+        refine ⟨5, 6, by omega, by omega, by decide, .inl hr', ?_⟩
+        rw [hlx, e5]; rw [e7] at hx
+        exact .tierUp (.unaryNeg hx)
     · obtain ⟨_, hk, hl, hr⟩ := binary_node h hnp hst
       refine ⟨tierRank op, tierRank op + 1, Nat.le_refl _, Nat.le_refl _, hk, .inr ⟨?_, hr⟩, hl⟩
       simp only [List.mem_cons, List.not_mem_nil, or_false] at hk ⊢
